@@ -9,11 +9,14 @@ Record flow := { f_dst : option (N * N); f_src : option (N * N); f_ops : list (N
 Definition mk_flow d s o : flow := {| f_dst := d; f_src := s; f_ops := o |}.
 
 (** construct_prefix: '1.1.1.0/24' -> 18 01 01 01; masklen 0 sets ip_hex = '' (str) and
-    bytes + str raises *)
+    bytes + str raises.  The address must be an IPv4 address (an IPv6 address is passed as its
+    integer, 2^32 or more for the ones that are not also IPv4 numbers) and the length must be in
+    0..32, else ValueError (fix: a prefix length outside the address size must be an error when
+    an NLRI is constructed, build/proposed/c08-prefix-length-range.patch) *)
 Definition fs_construct_prefix (p : N * N) : res bytes :=
   let '(a, l) := p in
   let b := be 4 a in
-  if 255 <? l then Exc else
+  if (32 <? l) || (2 ^ 32 <=? a) then Exc else
   if (16 <? l) && (l <=? 24) then Ok (l :: take 3 b)
   else if (8 <? l) && (l <=? 16) then Ok (l :: take 2 b)
   else if (0 <? l) && (l <=? 8) then Ok (l :: take 1 b)
